@@ -166,8 +166,11 @@ class Photon:
 
         if self._array is not None:
             self._array += other
+        elif isinstance(other, xr.DataArray):
+            # Empty container: validate like an assignment
+            self.array_3d = other
         else:
-            self._array = other
+            self.array = other
         return self
 
     def __add__(self, other: Union[np.ndarray, "xr.DataArray"]) -> Self:
@@ -182,8 +185,11 @@ class Photon:
 
         if self._array is not None:
             self._array += other
+        elif isinstance(other, xr.DataArray):
+            # Empty container: validate like an assignment
+            self.array_3d = other
         else:
-            self._array = other
+            self.array = other
         return self
 
     def _get_uninitialized_2d_error_message(self) -> str:
